@@ -148,12 +148,12 @@ class Scratch:
         shutil.rmtree(self.root, ignore_errors=True)
 
 
-def judge(sc, name, breaks, quick_budget_args, also_clean=None):
+def judge(sc, name, breaks, quick_budget_args, also_clean=None, tier_args=None):
     """Runs the quick tier of each property in `breaks`; wants VIOLATION + a replay that reproduces on
     the changed tree and passes on the unchanged one."""
     res = {}
     for p in breaks:
-        rc, out, err = sc.check(p, "--tier", "quick", *quick_budget_args)
+        rc, out, err = sc.check(p, *(tier_args or ["--tier", "quick"]), *quick_budget_args)
         m = re.search(r"VIOLATION property=(\S+) replay=(\S+)", out)
         rule = re.search(r"violated rule (\S+) in run (\d+)", out)
         mini = re.search(r"minimised from (\d+) to (\d+) events", out)
@@ -275,7 +275,7 @@ def seeded(args):
                 continue
             props = meta["breaks"] if isinstance(meta["breaks"], list) else [meta["breaks"]]
             claimed = [p for p in props if p in CLAIMED]
-            r = judge(sc, i, claimed, [])
+            r = judge(sc, i, claimed, [], tier_args=meta.get("check_args"))
             out_all[i] = r
             cells = []
             for p, e in r.items():
